@@ -13,7 +13,7 @@
   model running out of fuel (never produced for the fuel the driver supplies; the harness treats
   it as a disagreement).  The structural facts the model relies on (which todo entries are leaves,
   where gitlinks are skipped, whether the root tree is part of `get_tree_objects`) are read from
-  the source by the translator (`Gen/Graph.lean`).
+  the source by the translator (`Gen/ObjGraph.lean`).
 
   Assumed (parameters of the real code left at their defaults): no commit-graph file
   (`store.get_commit_graph()` is falsy), `get_parents = commit.parents` outside the shallow set,
